@@ -446,7 +446,7 @@ class OutProtocolBase(ProtocolMixin):
         if seconds > 0 or useconds > 0:
             retval.append("%i" % seconds)
             if useconds > 0:
-                retval.append(".%i" % useconds)
+                retval.append(".%06d" % useconds)
             retval.append("S")
 
         if len(retval) == 2:
